@@ -1333,7 +1333,7 @@ def oracle(case, impl, model):
             fails.append((f"unexpected-raise:{impl['schema_err']['err']}:{kinds}",
                           f"structure_to_schema raised {impl['schema_err']} on a mappable class"))
         return fails
-    if model.get("inWfFrag") and model.get("refsFaithful") and not (impl["wf"] and impl["refs_ok"]):
+    if model.get("inWfFrag") and not (impl["wf"] and impl["refs_ok"]):
         fails.append(("ill-formed:inside-the-proved-region",
                       f"schema_wellformed_partial covers this class, yet the real schema is ill-formed: {impl.get('wf_err')} {impl.get('bad_refs')}"))
     if not impl["wf"]:
